@@ -61,6 +61,15 @@ CHECKS = {
              "outputs must sit under their declared/rank-order names in original coordinates, and every user-supplied tensor object and "
              "name must be unchanged (deep snapshot incl. explicit zeros).",
         design="4/C07"),
+    "C09": dict(
+        technique="property-based testing (Hypothesis): generated specifications and generated sympy coordinate expressions; round-trip oracle: structural conversion of the HiFiber tree to a Python AST vs ast.parse of the printed text (modulo re-association of one associative operator), plus exact Fraction evaluation of tree, text and source expression",
+        text="Generated-input search: (a) for specifications of every family (plain/spacetime; shipped YAMLs also in metrics mode) the "
+             "statement tree HiFiber(...).hifiber, converted to a Python AST by node structure, must equal ast.parse of the emitted text "
+             "after flattening chains of a single associative operator; (b) sympy expressions derived the way the compiler derives them "
+             "(solve, level/halo substitution, isolation) are fed to CoordAccess.build_expr and tree, printed text and the sympy value are "
+             "compared structurally and by exact evaluation. Found the missing parentheses of a scaled nway step on the pinned commit (fixed).",
+        design="4/C09",
+        note="Trusted base: vf/tree2ast.py (node-by-node conversion), Python's ast module, sympy for the reference value, Hypothesis."),
 }
 
 NOT_APPLICABLE = {}
